@@ -158,6 +158,22 @@ more4 = {
 }
 for k, v in more4.items():
     more[k] = more.get(k, "") + v
+# additions after the fifth round of seeded changes
+more5 = {
+ "C01": " Round 5: a message-set shape with MIDs that differ only in case, and lower-case MIDs.",
+ "C02": " Round 5: a scenario with lower-case / mixed-case MIDs.",
+ "C05": " Round 5: a peer that says FQ early hangs up at once (writes to the closed peer fail).",
+ "C06": " Round 5: six very skewed 150 000-byte inputs (a dozen values with geometrically falling weights plus a thin sprinkle of all other values) that push codes of the adaptive tree to 16 bits.",
+ "C10": " Round 5: AddOutV2 (the first message posted again with other content once it has been sent); the To+Cc message of the universe is P2P-only.",
+ "C11": " Round 5: histories ProcessInbound-longmid (248-character identifier) and SetUnread-third-change.",
+ "C12": " Round 5: the session part points TMPDIR into a watched tree of its own.",
+ "C13": " Round 5: malformed answers to the polls Close issues, with the demand that Close still performs the disconnect exchange.",
+ "C14": " Round 5: FEC / ERR / ID data frames between the ARQ frames.",
+ "C15": " Round 5: credentials containing line feeds.",
+ "C19": " Round 5: a bracketed IPv6 host without a port.",
+}
+for k, v in more5.items():
+    more[k] = more.get(k, "") + v
 for k, v in more.items():
     checks[k]["level_claimed"]["text"] += v
 for k, v in notes.items():
